@@ -392,6 +392,16 @@ class ManyOf(Choices):
         pg_typing.ensure_value_spec(
             value_spec, pg_typing.List(pg_typing.Any()), path))
     if list_spec:
+      if (self.num_choices < list_spec.min_size
+          or (list_spec.max_size is not None
+              and self.num_choices > list_spec.max_size)):
+        raise ValueError(
+            utils.message_on_path(
+                f'A list of {self.num_choices} choices does not fit the '
+                f'size bounds of value spec: {list_spec}.',
+                path,
+            )
+        )
       for i, c in enumerate(self.candidates):
         list_spec.element.value.apply(
             c,
